@@ -2,7 +2,8 @@
 from ..sim import programs as PG, simcheck
 
 ORACLE = "vf.sim.props:c04"
-KINDS = ["raise", "sysexit", "kbint", "bad_arg", "exit_arg", "huge_arg", "unpicklable_result"]
+KINDS = ["raise", "sysexit", "kbint", "bad_arg", "exit_arg", "huge_arg", "unpicklable_result",
+         "index_arg", "key_arg"]
 
 
 def plan(tier):
